@@ -27,6 +27,15 @@ fn quorum_of(i: usize) -> Quorum {
         _ => Quorum::All,
     }
 }
+/// required number of identical copies as the property states it (not taken from the code under test)
+fn spec_quorum(i: usize) -> usize {
+    match i {
+        0 => 1,
+        1 => 2,
+        2 => CLOSE_GROUP_SIZE / 2 + 1,
+        _ => CLOSE_GROUP_SIZE,
+    }
+}
 fn drain(rx: &mut oneshot::Receiver<Msg>) -> (usize, Option<Msg>) {
     match rx.try_recv() {
         Ok(m) => (1, Some(m)),
@@ -84,7 +93,8 @@ fn c05_event_step() {
     let mut d = SwarmDriver::new(PeerId(self_id));
     let qi = choice(4);
     let quorum = quorum_of(qi);
-    let q = get_quorum_value(&quorum);
+    let q = spec_quorum(qi);
+    check_bool("step:quorum_value_as_specified", get_quorum_value(&quorum) == q);
     let n_senders = 1 + choice(2);
     let has_target = choice(2) == 1;
     let target_c = SymU::<256>::fresh("expected_content");
@@ -244,8 +254,9 @@ fn c05_dedup() {
         let step = ProgressStep { count: NonZeroUsize::new(replies).unwrap(), last: false };
         d.accumulate_get_record_found(qid, PeerRecord { peer: Some(PeerId(p)), record: rec(Content::Opaque(content)) }, QueryStats, step).expect("accumulate");
     }
-    let q1 = get_quorum_value(&quorum_of(q1i));
-    let q2 = get_quorum_value(&quorum_of(q2i));
+    let q1 = spec_quorum(q1i);
+    let q2 = spec_quorum(q2i);
+    check_bool("dedup:quorum_value_as_specified", get_quorum_value(&quorum_of(q1i)) == q1 && get_quorum_value(&quorum_of(q2i)) == q2);
     note(format!("first caller quorum {q1}, second caller quorum {q2} expected_value={has_target2}; {replies} distinct peers replied"));
     let (n1, m1) = drain(&mut rx1);
     let (n2, m2) = drain(&mut rx2);
